@@ -1,11 +1,17 @@
 """C07 - genotypes written to VCF/BCF or PGEN read back unchanged.
 
 Relations
-  pgen : GenotypesPLINK.write (chunk cw) with a recorder around pgenlib.PgenWriter,
-         then GenotypesPLINK.read (chunk cr) by haptools
-  vcf  : GenotypesVCF.write to .vcf / .vcf.gz (+-tbi) / .bcf (+-csi), the file
-         inspected with pysam.VariantFile directly, then Genotypes.read by haptools
+  pgen : GenotypesPLINK.write (chunk cw) with a recorder around pgenlib.PgenWriter, the written
+         files read with pgenlib.PvarReader/PgenReader directly, then GenotypesPLINK.read
+         (chunk cr) by haptools; shapes n x p, n x 0, 0 x p, 0 x 0
+  vcf  : GenotypesVCF.write to .vcf / .vcf.gz (none, .tbi, .csi) / .bcf (none, .csi), the file
+         inspected with pysam.VariantFile directly, then Genotypes.read by haptools without a
+         region and with a whole contig as region; the same shapes
+  text : the names as characters: the .psam / .pvar text (PGEN) or the VCF text (.vcf, .vcf.gz
+         decompressed) resp. pysam's view (.bcf) of samples, IDs, contigs, positions, alleles
+         and GTs, and what haptools reads back; unusual but legal names
 """
+import gzip
 import os
 import shutil
 import tempfile
@@ -17,41 +23,70 @@ from .core import Relation, err_kind
 
 PROP = "C07"
 CLAIMED = True
-COQ_MODULES = ["C07_Check", "C07_Proofs"]
+COQ_MODULES = ["C07_Check", "C07_ProofsText", "C07_Proofs"]
 PROPERTY_MODULE = "C07_Property"
 ALLOWED_AXIOMS = []
 RULE = (
-    "matrices of 1-6 samples x 0-7 variants on 1-3 contigs, 2-5 alleles per variant, codes drawn from an arbitrary "
-    "non-empty subset of each variant's alleles (so unobserved middle alleles and single-allele columns occur), "
-    "missing calls in any pattern (half-missing for VCF), phased/unphased/mixed, 2- and 3-plane arrays, the _prephased "
-    "attribute set on the writing or reading object in about 10% of the cases; chunk sizes "
-    "None,1..p+1 independently for write and read; .vcf, .vcf.gz, .bcf with and without index. Non-trivial = at least "
-    "one variant and one call that is heterozygous or missing. Distinct = distinct canonical JSON."
+    "matrices of 0-6 samples x 0-7 variants (the shapes n x 0, 0 x p and 0 x 0 in about 15% of the cases) on 1-3 "
+    "contigs, 2-5 alleles per variant, codes drawn from an arbitrary non-empty subset of each variant's alleles (so "
+    "unobserved middle alleles and single-allele columns occur), missing calls in any pattern (calls missing in one "
+    "allele only for VCF, and in 8% of the PGEN cases to observe the refusal), phased/unphased/mixed, 2- and 3-plane "
+    "arrays, the _prephased attribute set on the writing or reading object in about 10% of the cases; chunk sizes "
+    "None,1..p+1 independently for write and read; .vcf, .vcf.gz without index / with .tbi / with .csi, .bcf without "
+    "index / with .csi, read without a region and with a contig as region; names as text: sample names, variant IDs, "
+    "contigs and alleles over printable ASCII and some non-ASCII letters - digits only, underscores, dots, '#' inside "
+    "and in front, reserved words (IID, #IID, FID, CHROM, NA, None), a leading double quote, names of 60-300 "
+    "characters, IDs of exactly 50 and contigs of exactly 10 characters, symbolic and long alleles, positions up to "
+    "2^31-2. Non-trivial = at least one variant and one call that is heterozygous or missing (pgen, vcf); at least one "
+    "name outside [A-Za-z0-9] (text). Distinct = distinct canonical JSON."
 )
 TRUSTED = [
-    "pgenlib: a batch is accepted iff every declared allele count <= allele_ct_limit and every call is missing in both "
-    "alleles or has both codes < its allele count; a stored call reads back with the same alleles, unordered when "
-    "heterozygous and unphased (Section variable pload, contract pload_contract; exercised on every run)",
+    "pgenlib.PgenWriter accepts a batch iff every declared allele count <= allele_ct_limit and every call is missing "
+    "in both alleles or has both codes < its allele count (Section variable paccept; clauses paccept_complete / "
+    "paccept_sound; checked on every run: contracts_pgen evaluates the precondition on the batches of every write "
+    "that succeeded, and the model, which rejects exactly the other batches, is compared with the outcome)",
+    "pgenlib.PgenReader: a stored call reads back with the same alleles, unordered when heterozygous and unphased "
+    "(Section variable pload, contract pload_contract; validated directly on every run: the files haptools wrote are "
+    "read with pgenlib.PvarReader/PgenReader, not through haptools, and every call is checked against the contract "
+    "(pload_okb) and against the concrete instance pload_std; sample/variant/allele counts likewise)",
     "pysam/cyvcf2: a GT tuple and phased flag written with pysam read back unchanged with cyvcf2, missing = -1 "
-    "(Section variable vload, contract vload_contract; exercised on every run, the file is also read with pysam)",
+    "(Section variable vload, contract vload_contract; exercised on every run, the file is also read with pysam; for "
+    ".vcf/.vcf.gz the text of the GT tokens is observed and its parsing is a theorem)",
+    "htslib: iterating a reader without a region yields every record whatever the format (.vcf, .vcf.gz, .bcf) and "
+    "whether or not a .tbi/.csi lies beside the file; a region query without an index fails (record htslib with "
+    "contracts hts_iter_contract / hts_region_contract; exercised on every run over all seven format/index "
+    "combinations, region queries included)",
+    "pysam writes a record as the tab-separated line CHROM POS ID REF ALT(comma-joined) QUAL FILTER INFO [GT ...] "
+    "after ## lines and the #CHROM line (observed as text on every run for .pvar, .vcf, .vcf.gz; .bcf is binary: "
+    "there pysam's view of the fields is compared)",
     "harness transposes haptools' sample-major array to the model's variant-major rows (numpy.transpose)",
-    "strings are interned to integers per case (they are only compared)",
+    "pgen/vcf relations: strings are interned to integers per case (they are only compared); text relation: strings "
+    "are lists of code points",
 ]
 ASSUMPTIONS = [
-    "domain of the theorems and of holds: >= 1 sample, every variant has 2..255 alleles, every allele index is within "
-    "the variant's allele list or 255 (missing), chunk sizes >= 1 or None",
-    "PGEN: a call missing in one allele only is outside the domain (pgenlib rejects it with RuntimeError); "
-    "the check compares the exception kind (agree) and does not count it as a violation",
+    "domain of the round-trip theorems and of holds: every variant has 2..255 alleles, every allele index is within "
+    "the variant's allele list or 255 (missing), chunk sizes >= 1 or None; any number of samples and variants, 0 "
+    "included (an array without entries must come back as an array without entries, samples and variants unchanged)",
+    "names (text relation and theorems): non-empty strings without tab, line feed, carriage return; variant IDs of at "
+    "most 50 and contig names of at most 10 characters (longer ones are already cut when put into haptools' numpy "
+    "record type, before anything is written), alleles without a comma, positions 1..2^31-2 with the last base of REF "
+    "at or below 2^31-1 (htslib/pgenlib limits; beyond them write raises OverflowError/RuntimeError), "
+    "ID not '.' (VCF's missing value), contigs and alleles over the characters the VCF specification allows",
+    "PGEN, variants without samples: the format cannot hold them (pgenlib's writer crashes for sample_ct = 0); "
+    "GenotypesPLINK.write refuses with ValueError, which holds accepts; an interpreter crash is not accepted",
+    "PGEN, a call missing in one allele only (e.g. 1/.): outside what the property demands of PGEN. Argument: the "
+    "PGEN format has no representation for a half-missing hard call (plink2 itself refuses to import one unless told "
+    "how to change it: --vcf-half-call), haptools' own documentation of the format (docs/formats/genotypes.rst, an "
+    "anchor of this property) tells users to convert with --vcf-half-call m, and where a property of this suite means "
+    "half-missing calls it says so (C13: 'missing in one or both alleles, half-missing') whereas C07 speaks of "
+    "'missing calls' of a matrix that is written to either format. No repair can make such a call round-trip through "
+    "PGEN. GenotypesPLINK.write fails for exactly the matrices that contain at least one call with exactly one allele "
+    "equal to 255 (RuntimeError from pgenlib, after the .psam/.pvar were written); the model has this refusal "
+    "(theorem C07_pgen_half_missing_refused) and agree compares it on every run, so a change that starts to store "
+    "such calls differently is noticed; through VCF/BCF these calls are in the domain and must round-trip",
 ]
 
 ALPH = ["A", "C", "G", "T", "AC", "GT", "ACG", "TTA", "CA", "G"]
-
-# Switch for the integrator: pgenlib cannot store a call that is missing in one allele only
-# (GenotypesPLINK.write raises RuntimeError). False = such inputs are outside the domain that holds
-# checks (agree still compares the exception kind); True = holds demands the round trip for them too,
-# the failures then carry "half-missing=True" in their signature (candidate known finding).
-STRICT_PGEN_HALF_MISSING = False
-
 
 # ----------------------------------------------------------------------------
 # building / dumping haptools objects
@@ -200,8 +235,20 @@ def chunk_choice(rng, p):
     return int(rng.integers(1, p + 3))
 
 
+def with_empty_shapes(rng, m):
+    """About 9% of the matrices lose all their samples (0 x p, and 0 x 0 when there were no variants)."""
+    if rng.random() < 0.09:
+        m = dict(m, samples=[], rows=[[] for _ in m["rows"]])
+    return m
+
+
+def shape_class(inp):
+    n, p = len(inp["samples"]), len(inp["variants"])
+    return "shape=" + ("0x0" if not n and not p else "0xp" if not n else "nx0" if not p else "nxp")
+
+
 def features(inp):
-    out = []
+    out = [shape_class(inp)]
     p = len(inp["variants"])
     if p == 0:
         out.append("p=0")
@@ -243,11 +290,11 @@ def nontrivial_matrix(inp):
     return bool(inp["variants"]) and any(c[0] != c[1] or c[0] == 255 for row in inp["rows"] for c in row)
 
 
-def shrink_matrix(inp):
+def shrink_matrix(inp, keep_one_sample=True):
     p, n = len(inp["variants"]), len(inp["samples"])
     for j in range(p):
         yield dict(inp, variants=inp["variants"][:j] + inp["variants"][j + 1:], rows=inp["rows"][:j] + inp["rows"][j + 1:])
-    if n > 1:
+    if n > (1 if keep_one_sample else 0):
         for s in range(n):
             yield dict(inp, samples=inp["samples"][:s] + inp["samples"][s + 1:],
                        rows=[r[:s] + r[s + 1:] for r in inp["rows"]])
@@ -332,6 +379,37 @@ def batch_term(b):
     return f"(mkb {L.lst(b['codes'], pairs)} {L.zl(b['cts'])} {ph})"
 
 
+def pgenlib_dump(path):
+    """The written files as pgenlib itself reports them (not through haptools)."""
+    import pgenlib
+
+    pv = pgenlib.PvarReader(bytes(os.path.splitext(path)[0] + ".pvar", "utf8"))
+    p = int(pv.get_variant_ct())
+    cts = [int(pv.get_allele_ct(i)) for i in range(p)]
+    calls = []
+    with pgenlib.PgenReader(bytes(path, "utf8"), pvar=pv) as r:
+        n = int(r.get_raw_sample_ct())
+        pp = int(r.get_variant_ct())
+        for i in range(pp):
+            a = np.empty(2 * n, dtype=np.int32)
+            ph = np.empty(n, dtype=np.uint8)
+            r.read_alleles_and_phasepresent(i, a, ph)
+            calls.append([[int(a[2 * j]), int(a[2 * j + 1]), int(ph[j])] for j in range(n)])
+    return {"n": n, "p": pp, "pvar_p": p, "cts": cts, "calls": calls}
+
+
+def praw_term(r):
+    if r is None:
+        return "(Err 0)"
+    if "err" in r:
+        return f"(Err {L.z(r['err'])})"
+    r = r["ok"]
+    if r["pvar_p"] != r["p"]:
+        return "(Err 97)"
+    sc = lambda c: f"({L.z(c[0])}, {L.z(c[1])}, {L.z(c[2])})"
+    return f"(Ok (mkpr {L.z(r['n'])} {L.z(r['p'])} {L.zl(r['cts'])} {L.lst(r['calls'], lambda row: L.lst(row, sc))}))"
+
+
 class Pgen(Relation):
     name = "pgen"
     coq_module = "C07_Check"
@@ -339,7 +417,7 @@ class Pgen(Relation):
     coq_case_type = "pcase"
     coq_model = "model_pgen"
     coq_imports = ["C07_Model"]
-    budget = {"quick": 350, "thorough": 5000}
+    budget = {"quick": 300, "thorough": 5000}
     anchors = [
         ("haptools/data/genotypes.py", "GenotypesPLINK.write"),
         ("haptools/data/genotypes.py", "GenotypesPLINK._num_unique_alleles"),
@@ -355,6 +433,7 @@ class Pgen(Relation):
         out = []
         for i in range(n):
             m = gen_matrix(rng, half_ok=(rng.random() < 0.08))
+            m = with_empty_shapes(rng, m)
             p = len(m["variants"])
             m["cw"] = chunk_choice(rng, p)
             m["cr"] = chunk_choice(rng, p)
@@ -376,6 +455,17 @@ class Pgen(Relation):
             for cw in [None] + list(range(1, p + 2)):
                 for cr in [None] + list(range(1, p + 2)):
                     out.append(dict(m, cw=cw, cr=cr))
+        # every shape without entries x every chunk setting
+        for n, p in ((0, 0), (0, 1), (0, 3), (1, 0), (3, 0)):
+            m = None
+            while m is None or len(m["variants"]) != p:
+                m = gen_matrix(rng, half_ok=False, pmax=p, pmin=p, nmax=3)
+            if n == 0:
+                m = dict(m, samples=[], rows=[[] for _ in m["rows"]])
+            for cw in (None, 1, p + 1):
+                for cr in (None, 1, p + 1):
+                    for wpre, rpre in ((False, False), (True, False), (False, True)):
+                        out.append(dict(m, cw=cw, cr=cr, wpre=wpre, rpre=rpre))
         return out
 
     def run_impl(self, inp):
@@ -397,7 +487,14 @@ class Pgen(Relation):
             if rec.unobserved:
                 return {"unobserved": rec.unobserved}
             if "err" in calls:
-                return {"calls": calls, "back": {"err": calls["err"]}}
+                return {"calls": calls, "raw": None, "back": {"err": calls["err"]}}
+            raw = None
+            if inp["variants"]:
+                # the independent reading of what haptools wrote, with pgenlib alone
+                try:
+                    raw = {"ok": pgenlib_dump(path)}
+                except Exception as e:  # noqa
+                    raw = {"err": err_kind(e), "cls": type(e).__name__, "msg": str(e)[:160]}
             try:
                 from pathlib import Path
 
@@ -407,13 +504,14 @@ class Pgen(Relation):
                 back = {"ok": dump_obj(r)}
             except Exception as e:  # noqa
                 back = {"err": err_kind(e), "cls": type(e).__name__, "msg": str(e)[:160]}
-            return {"calls": calls, "back": back}
+            return {"calls": calls, "raw": raw, "back": back}
         finally:
             shutil.rmtree(d, ignore_errors=True)
 
     def encode(self, inp, obs):
         E = Enc()
         g = E.geno_in(inp)
+        raw = "(Err 0)"
         if "unobserved" in obs:
             calls, back = "(Err 97)", "(Err 97)"
         elif "calls" not in obs:
@@ -421,8 +519,9 @@ class Pgen(Relation):
         else:
             calls = L.res(obs["calls"], lambda c: f"({L.z(c['limit'])}, {L.lst(c['batches'], batch_term)})")
             back = E.rgeno(obs["back"])
-        return (f"(mkpc {g} {L.opt(inp['cw'], L.z)} {L.opt(inp['cr'], L.z)} {L.b(STRICT_PGEN_HALF_MISSING)} "
-                f"{L.b(inp.get('wpre', False))} {L.b(inp.get('rpre', False))} {calls} {back})")
+            raw = praw_term(obs.get("raw"))
+        return (f"(mkpc {g} {L.opt(inp['cw'], L.z)} {L.opt(inp['cr'], L.z)} "
+                f"{L.b(inp.get('wpre', False))} {L.b(inp.get('rpre', False))} {calls} {raw} {back})")
 
     def nontrivial(self, inp, obs):
         return nontrivial_matrix(inp)
@@ -439,6 +538,8 @@ class Pgen(Relation):
             out.append("reader-prephased")
         if isinstance(obs, dict) and "calls" in obs and "err" in obs["calls"]:
             out.append(f"write-err{obs['calls']['err']}")
+        if isinstance(obs, dict) and obs.get("raw") and "ok" in obs["raw"]:
+            out.append("read-with-pgenlib-directly")
         if isinstance(obs, dict) and "__crash__" in obs:
             out.append("crash")
         return out
@@ -450,13 +551,16 @@ class Pgen(Relation):
         for key in ("wpre", "rpre"):
             if inp.get(key):
                 yield dict(inp, **{key: False})
-        yield from shrink_matrix(inp)
+        yield from shrink_matrix(inp, keep_one_sample=bool(inp["samples"]))
 
     def mutate(self, inp, rng):
         p = len(inp["variants"])
         for cw in (None, 1, p, p + 1):
             for cr in (None, 1, p, p + 1):
                 yield dict(inp, cw=cw, cr=cr)
+        if inp["samples"]:
+            yield dict(inp, samples=[], rows=[[] for _ in inp["rows"]])
+        yield dict(inp, variants=[], rows=[])
 
     def signature(self, inp, obs):
         f = features(inp)
@@ -468,7 +572,7 @@ class Pgen(Relation):
             what = f"GenotypesPLINK.read raised {obs['back'].get('cls')}"
         else:
             what = "PGEN read-back differs from what was written"
-        return (f"pgen: {what}; missing-call={'missing' in f or 'half-missing' in f} "
+        return (f"pgen: {what}; {shape_class(inp)} missing-call={'missing' in f or 'half-missing' in f} "
                 f"unobserved-lower-allele={'unobserved-lower-allele' in f} half-missing={'half-missing' in f}")
 
 
@@ -502,6 +606,33 @@ def sorted_for_index(inp):
     return True
 
 
+FORMATS = [("vcf", None), ("vcf.gz", None), ("vcf.gz", "tbi"), ("vcf.gz", "csi"), ("bcf", None), ("bcf", "csi")]
+FMT_TERM = {"vcf": "F_vcf", "vcf.gz": "F_vcfgz", "bcf": "F_bcf"}
+IDX_TERM = {None: "I_none", "tbi": "I_tbi", "csi": "I_csi"}
+
+
+def make_index(path, fmt, index):
+    import pysam
+
+    if index is None:
+        return
+    if fmt == "bcf":
+        pysam.tabix_index(path, preset="bcf", force=True)
+    else:
+        pysam.tabix_index(path, preset="vcf", force=True, csi=(index == "csi"))
+    want = path + "." + index
+    if not os.path.exists(want):
+        raise RuntimeError(f"index {want} was not created")
+
+
+def index_of(inp):
+    """the index of a vcf input (older corpus files have a boolean)"""
+    idx = inp.get("index")
+    if idx is True:
+        return "csi" if inp["fmt"] == "bcf" else "tbi"
+    return idx or None
+
+
 class Vcf(Relation):
     name = "vcf"
     coq_module = "C07_Check"
@@ -509,7 +640,7 @@ class Vcf(Relation):
     coq_case_type = "vcase"
     coq_model = "model_vcf"
     coq_imports = ["C07_Model"]
-    budget = {"quick": 300, "thorough": 4000}
+    budget = {"quick": 260, "thorough": 4000}
     anchors = [
         ("haptools/data/genotypes.py", "GenotypesVCF.write"),
         ("haptools/data/genotypes.py", "GenotypesVCF._variant_arr"),
@@ -524,15 +655,36 @@ class Vcf(Relation):
         out = []
         for i in range(n):
             m = gen_matrix(rng, half_ok=True)
-            m["fmt"] = str(rng.choice(["vcf", "vcf.gz", "vcf.gz", "bcf", "bcf"]))
-            m["index"] = bool(m["fmt"] != "vcf" and m["variants"] and sorted_for_index(m) and rng.random() < 0.5)
+            m = with_empty_shapes(rng, m)
+            fmt, idx = FORMATS[int(rng.integers(0, len(FORMATS)))]
+            if idx is not None and not sorted_for_index(m):
+                idx = None
+            m["fmt"], m["index"] = fmt, idx
             m["wpre"] = bool(rng.random() < 0.1)
             m["rpre"] = bool(rng.random() < 0.12)
+            # a contig requested as region afterwards (needs an index to be served)
+            m["region"] = None
+            if m["variants"] and rng.random() < 0.6:
+                m["region"] = m["variants"][int(rng.integers(0, len(m["variants"])))][1]
             out.append(m)
         return out
 
+    def exhaustive(self, tier):
+        # one matrix of every shape in every format / index combination, with and without region
+        rng = np.random.default_rng(78)
+        out = []
+        for n, p in ((2, 3), (1, 1), (2, 0), (0, 2), (0, 0)):
+            m = None
+            while m is None or len(m["variants"]) != p or not sorted_for_index(m):
+                m = gen_matrix(rng, half_ok=True, pmax=p, pmin=p, nmax=3)
+            if n == 0:
+                m = dict(m, samples=[], rows=[[] for _ in m["rows"]])
+            for fmt, idx in FORMATS:
+                for region in ([None] + sorted({v[1] for v in m["variants"]})):
+                    out.append(dict(m, fmt=fmt, index=idx, wpre=False, rpre=False, region=region))
+        return out
+
     def run_impl(self, inp):
-        import pysam
         from pathlib import Path
         from haptools.data import GenotypesVCF
         from haptools.logging import getLogger
@@ -543,26 +695,33 @@ class Vcf(Relation):
             g = build_obj(GenotypesVCF, path, inp)
             try:
                 g.write()
-                if inp["index"]:
-                    pysam.tabix_index(path, preset="bcf" if inp["fmt"] == "bcf" else "vcf", force=True)
+                make_index(path, inp["fmt"], index_of(inp))
                 file = {"ok": pysam_dump(path)}
             except Exception as e:  # noqa
                 file = {"err": err_kind(e), "cls": type(e).__name__, "msg": str(e)[:160]}
-                return {"file": file, "back": {"err": file["err"]}}
-            try:
-                r = GenotypesVCF(Path(path), log=getLogger("hv", "CRITICAL"))
-                r._prephased = bool(inp.get("rpre", False))
-                r.read()
-                back = {"ok": dump_obj(r)}
-            except Exception as e:  # noqa
-                back = {"err": err_kind(e), "cls": type(e).__name__, "msg": str(e)[:160]}
-            return {"file": file, "back": back}
+                return {"file": file, "back": {"err": file["err"]}, "rback": None}
+
+            def read(region):
+                try:
+                    r = GenotypesVCF(Path(path), log=getLogger("hv", "CRITICAL"))
+                    r._prephased = bool(inp.get("rpre", False))
+                    r.read(region=region)
+                    return {"ok": dump_obj(r)}
+                except Exception as e:  # noqa
+                    return {"err": err_kind(e), "cls": type(e).__name__, "msg": str(e)[:160]}
+
+            back = read(None)
+            rback = read(inp["region"]) if inp.get("region") is not None else None
+            return {"file": file, "back": back, "rback": rback}
         finally:
             shutil.rmtree(d, ignore_errors=True)
 
     def encode(self, inp, obs):
         E = Enc()
         g = E.geno_in(inp)
+        region = inp.get("region")
+        rterm = "None" if region is None else f"(Some {L.z(E.i(('chrom', region)))})"
+        rback = "(Err 0)"
         if "file" not in obs:
             file = back = f"(Err {oerr(obs)})"
         else:
@@ -570,57 +729,401 @@ class Vcf(Relation):
             rec = lambda r: f"({E.variant(r[0])}, {L.lst(r[1], vc)})"
             file = L.res(obs["file"], lambda f: f"(mkvf {L.lst(f['samples'], E.s)} {L.lst(f['recs'], rec)})")
             back = E.rgeno(obs["back"])
-        return (f"(mkvc {g} {L.b(inp['index'])} {L.b(inp.get('wpre', False))} {L.b(inp.get('rpre', False))} "
-                f"{file} {back})")
+            if obs.get("rback") is not None:
+                rback = E.rgeno(obs["rback"])
+        return (f"(mkvc {g} {FMT_TERM[inp['fmt']]} {IDX_TERM[index_of(inp)]} {L.b(inp.get('wpre', False))} "
+                f"{L.b(inp.get('rpre', False))} {file} {back} {rterm} {rback})")
 
     def nontrivial(self, inp, obs):
         return nontrivial_matrix(inp)
 
     def classes(self, inp, obs):
-        return (features(inp) + [f"fmt={inp['fmt']}", f"index={'y' if inp['index'] else 'n'}"]
-                + (["writer-prephased"] if inp.get("wpre") else []) + (["reader-prephased"] if inp.get("rpre") else []))
+        out = (features(inp) + [f"fmt={inp['fmt']}", f"index={index_of(inp) or 'none'}",
+                                f"file={inp['fmt']}+{index_of(inp) or 'noindex'}"]
+               + (["writer-prephased"] if inp.get("wpre") else []) + (["reader-prephased"] if inp.get("rpre") else []))
+        if inp.get("region") is not None:
+            out.append("region-with-index" if index_of(inp) else "region-without-index")
+        return out
 
     def shrink(self, inp):
-        if inp["fmt"] != "vcf" and not inp["index"]:
+        if inp["fmt"] != "vcf" and not index_of(inp):
             yield dict(inp, fmt="vcf")
+        if inp.get("region") is not None:
+            yield dict(inp, region=None)
         for key in ("wpre", "rpre"):
             if inp.get(key):
                 yield dict(inp, **{key: False})
-        for c in shrink_matrix(inp):
-            if not inp["index"] or (c["variants"] and sorted_for_index(c)):
-                yield c
+        for c in shrink_matrix(inp, keep_one_sample=bool(inp["samples"])):
+            if index_of(inp) and not sorted_for_index(c):
+                continue
+            if c.get("region") is not None and c["region"] not in {v[1] for v in c["variants"]}:
+                c = dict(c, region=None)
+            yield c
 
     def mutate(self, inp, rng):
-        for fmt in ("vcf", "vcf.gz", "bcf"):
-            yield dict(inp, fmt=fmt, index=False)
-            if fmt != "vcf" and inp["variants"] and sorted_for_index(inp):
-                yield dict(inp, fmt=fmt, index=True)
+        for fmt, idx in FORMATS:
+            if idx is None or sorted_for_index(inp):
+                yield dict(inp, fmt=fmt, index=idx)
+        if inp["samples"]:
+            yield dict(inp, samples=[], rows=[[] for _ in inp["rows"]])
+        yield dict(inp, variants=[], rows=[], region=None)
 
     def signature(self, inp, obs):
+        sh = shape_class(inp)
         if not isinstance(obs, dict) or "back" not in obs:
-            return "vcf: interpreter crash/timeout in write+read"
+            return f"vcf: interpreter crash/timeout in write+read; {sh}"
         if "err" in obs["back"]:
-            return f"vcf: write/read raised {obs['back'].get('cls') or obs['file'].get('cls')}"
+            which = "write" if "err" in obs["file"] else "read"
+            return f"vcf: {which} raised {obs['back'].get('cls') or obs['file'].get('cls')}; {sh}"
         b = obs["back"]["ok"]
         if inp["variants"] and not b["variants"]:
-            return f"vcf: read of a file {'with' if inp['index'] else 'without'} index returned no variants"
-        return "vcf: read-back differs from what was written"
+            return f"vcf: read of a file {'with' if index_of(inp) else 'without'} index returned no variants; {sh}"
+        return f"vcf: read-back differs from what was written; {sh}"
 
 
-RELATIONS = [Pgen(), Vcf()]
+# ----------------------------------------------------------------------------
+# the names as text
+
+
+PRINTABLE = [chr(c) for c in range(33, 127)]
+NAME_RESERVED = ["IID", "#IID", "FID", "#FID", "#IIDx", "CHROM", "#CHROM", "##x", "NA", "None", "nan", "0", "-9", "GT",
+                 "ID", "POS", "sample", "."]
+CONTIG_FIRST = "0123456789ABCDEFGHIJKLMNOPQRSTUVWXYZabcdefghijklmnopqrstuvwxyz"
+CONTIG_REST = CONTIG_FIRST + "._-*:+|~@"
+BASES = "ACGTN"
+SYMBOLIC = ["*", "<DEL>", "<INS>", "<CN2>", "<NON_REF>", "<DUP:TANDEM>"]
+
+
+def rand_str(rng, alphabet, lo, hi):
+    k = int(rng.integers(lo, hi + 1))
+    return "".join(alphabet[int(i)] for i in rng.integers(0, len(alphabet), size=k))
+
+
+def gen_name(rng, maxlen=None, forbid=()):
+    """A sample name / variant ID: one of the unusual-but-legal families."""
+    fam = int(rng.integers(0, 12))
+    if fam == 0:
+        s = rand_str(rng, "0123456789", 1, 8)                         # digits only
+    elif fam == 1:
+        s = rand_str(rng, "_ab1", 1, 6) if rng.random() < 0.7 else "_" * int(rng.integers(1, 4))
+    elif fam == 2:
+        s = rand_str(rng, ".ab1", 2, 6) if rng.random() < 0.7 else "." * int(rng.integers(2, 4))
+    elif fam == 3:
+        s = rand_str(rng, "abcdefghij0123456789_", 60, 300)            # very long
+    elif fam == 4:
+        a, b = rand_str(rng, "ab1", 0, 3), rand_str(rng, "ab1#", 0, 3)
+        s = a + "#" + b                                                # '#' inside or in front
+    elif fam == 5:
+        s = NAME_RESERVED[int(rng.integers(0, len(NAME_RESERVED)))]
+    elif fam == 6:
+        s = '"' + rand_str(rng, 'ab1"', 0, 3)                          # begins with a double quote
+    elif fam == 7:
+        s = rand_str(rng, ["é", "名", "ß", "a", "1", "β"], 1, 5)   # non-ASCII letters
+    elif fam in (8, 9):
+        s = rand_str(rng, PRINTABLE, 1, 12)                            # any printable ASCII
+    else:
+        s = "s" + rand_str(rng, "0123456789", 1, 3)                    # ordinary
+    if maxlen is not None:
+        if len(s) > maxlen or (fam == 3 and rng.random() < 0.6):
+            s = (s * (maxlen // max(len(s), 1) + 1))[:maxlen]          # exactly the width of the field
+    if s in forbid or not s:
+        s = "x" + s.replace(".", "d")
+    return s[:maxlen] if maxlen is not None else s
+
+
+def gen_contig(rng):
+    r = rng.random()
+    if r < 0.3:
+        return str(int(rng.integers(1, 23)))
+    if r < 0.45:
+        return "chr" + str(int(rng.integers(1, 23)))
+    if r < 0.55:
+        return rand_str(rng, CONTIG_FIRST, 1, 1) + rand_str(rng, CONTIG_REST, 9, 9)     # exactly 10 characters
+    return rand_str(rng, CONTIG_FIRST, 1, 1) + rand_str(rng, CONTIG_REST, 0, 8)
+
+
+def gen_alleles(rng):
+    na = int(rng.choice([2, 2, 2, 3, 4, 6]))
+    ref = rand_str(rng, BASES, 1, 1) if rng.random() < 0.6 else rand_str(rng, BASES + "acgtn", 2, 8)
+    if rng.random() < 0.05:
+        ref = rand_str(rng, BASES, 100, 250)
+    out = [ref]
+    while len(out) < na:
+        r = rng.random()
+        a = SYMBOLIC[int(rng.integers(0, len(SYMBOLIC)))] if r < 0.15 else rand_str(rng, BASES + "acgtn", 1, 10)
+        if a not in out:
+            out.append(a)
+    return out
+
+
+def gen_text_case(rng):
+    target = str(rng.choice(["pgen", "pgen", "vcf", "vcf.gz", "bcf"]))
+    n = int(rng.choice([0, 1, 2, 3, 4])) if rng.random() < 0.9 else 6
+    p = int(rng.choice([0, 1, 2, 3])) if rng.random() < 0.9 else 5
+    if target == "pgen" and n == 0 and p > 0:
+        n = 1                                   # refused by the writer: nothing to read (pgen relation)
+    samples = []
+    while len(samples) < n:
+        s = gen_name(rng)
+        if s not in samples:
+            samples.append(s)
+    variants, calls = [], []
+    ids = []
+    for j in range(p):
+        vid = gen_name(rng, maxlen=50, forbid=(".",))
+        while vid in ids:
+            vid = gen_name(rng, maxlen=50, forbid=(".",))
+        if any(ch in vid for ch in " \t"):
+            vid = vid.replace(" ", "_")
+        ids.append(vid)
+        alleles = gen_alleles(rng)
+        pos = int(rng.integers(1, 1000)) if rng.random() < 0.8 else int(rng.choice([1, 2 ** 31 - 2, 10 ** 9, 536870912, 99999999]))
+        pos = min(pos, 2 ** 31 - len(alleles[0]))     # htslib: the last base of REF lies at or below 2^31 - 1
+        variants.append([vid, gen_contig(rng), pos, alleles])
+        row = []
+        for s in range(n):
+            a = None if rng.random() < 0.15 else int(rng.integers(0, len(alleles)))
+            b = None if rng.random() < 0.15 else int(rng.integers(0, len(alleles)))
+            if target == "pgen" and (a is None) != (b is None):
+                a = b = None                     # PGEN cannot hold a half-missing call
+            row.append([a, b, bool(rng.random() < 0.5)])
+        calls.append(row)
+    return {"target": target, "samples": samples, "variants": variants, "calls": calls}
+
+
+def text_to_obj_input(inp):
+    """the text case as an input of build_obj (rows variant-major, 3 planes)"""
+    rows = [[[255 if c[0] is None else c[0], 255 if c[1] is None else c[1], 1 if c[2] else 0] for c in row]
+            for row in inp["calls"]]
+    return {"samples": inp["samples"], "variants": inp["variants"], "rows": rows, "planes": 3}
+
+
+def pysam_view(path):
+    d = pysam_dump(path)
+    return {"samples": d["samples"], "recs": d["recs"]}
+
+
+class Text(Relation):
+    name = "text"
+    coq_module = "C07_Check"
+    coq_check = "check_text"
+    coq_case_type = "tcase"
+    coq_model = "model_text"
+    coq_imports = ["BpText", "C07_Text", "C07_Files", "C07_Model"]
+    budget = {"quick": 140, "thorough": 2500}
+    max_cases_per_shard = 60
+    max_chars_per_shard = 60_000
+    anchors = [
+        ("haptools/data/genotypes.py", "GenotypesPLINK.write_samples"),
+        ("haptools/data/genotypes.py", "GenotypesPLINK.write_variants"),
+        ("haptools/data/genotypes.py", "GenotypesPLINK.read_samples"),
+        ("haptools/data/genotypes.py", "GenotypesPLINK._iterate_variants"),
+        ("haptools/data/genotypes.py", "GenotypesPLINK._variant_arr"),
+        ("haptools/data/genotypes.py", "GenotypesVCF.write"),
+        ("haptools/data/genotypes.py", "GenotypesVCF._variant_arr"),
+    ]
+
+    def generate(self, rng, n, tier):
+        return [gen_text_case(rng) for _ in range(n)]
+
+    def exhaustive(self, tier):
+        # every reserved / boundary name once as the only sample and once as the only variant ID, per target
+        out = []
+        names = NAME_RESERVED + ["123", "_", "a.b", "a#b", "#a", '"q', 'q"r', '"', "a b", "x" * 300, "é名"]
+        for target in ("pgen", "vcf", "bcf"):
+            for nm in names:
+                out.append({"target": target, "samples": [nm, "zz"], "variants": [["v1", "1", 10, ["A", "C"]]],
+                            "calls": [[[0, 1, True], [None, None, False]]]})
+                if nm != "." and " " not in nm:
+                    out.append({"target": target, "samples": ["s"], "variants": [[nm[:50], "1", 10, ["A", "C"]], ["zz", "1", 20, ["G", "T"]]],
+                                "calls": [[[0, 1, True]], [[1, 1, False]]]})
+        return out
+
+    def run_impl(self, inp):
+        from pathlib import Path
+        from haptools.data import GenotypesVCF, GenotypesPLINK
+        from haptools.logging import getLogger
+
+        d = tempfile.mkdtemp(prefix="hv_c07_")
+        try:
+            target = inp["target"]
+            cls = GenotypesPLINK if target == "pgen" else GenotypesVCF
+            path = os.path.join(d, "x." + target)
+            oi = text_to_obj_input(inp)
+            g = build_obj(cls, path, oi)
+            # what the object holds before anything is written (the record type cuts long strings)
+            held = [[str(v["id"]), str(v["chrom"]), int(v["pos"]), [str(a) for a in v["alleles"]]] for v in g.variants]
+            out = {"held": held}
+            try:
+                g.write()
+            except Exception as e:  # noqa
+                out["write_err"] = {"err": err_kind(e), "cls": type(e).__name__, "msg": str(e)[:160]}
+                return out
+            rd = lambda p: open(p, "rb").read().decode("utf-8")
+            if target == "pgen":
+                out["text1"] = rd(os.path.join(d, "x.psam"))
+                out["text2"] = rd(os.path.join(d, "x.pvar"))
+            else:
+                if target == "vcf":
+                    out["text1"] = rd(path)
+                elif target == "vcf.gz":
+                    out["text1"] = gzip.decompress(open(path, "rb").read()).decode("utf-8")
+                try:
+                    out["view"] = {"ok": pysam_view(path)}
+                except Exception as e:  # noqa
+                    out["view"] = {"err": err_kind(e), "cls": type(e).__name__, "msg": str(e)[:160]}
+            try:
+                r = cls(Path(path), log=getLogger("hv", "CRITICAL"))
+                r.read()
+                out["back"] = {"ok": dump_obj(r)}
+            except Exception as e:  # noqa
+                out["back"] = {"err": err_kind(e), "cls": type(e).__name__, "msg": str(e)[:160]}
+            return out
+        finally:
+            shutil.rmtree(d, ignore_errors=True)
+
+    @staticmethod
+    def tv(v):
+        return f"(mktv {L.chars(v[0])} {L.chars(v[1])} {L.z(v[2])} {L.lst(v[3], L.chars)})"
+
+    def encode(self, inp, obs):
+        vc = lambda c: f"({L.opt(c[0], L.z)}, {L.opt(c[1], L.z)}, {L.b(c[2])})"
+        rec = lambda vr: f"({self.tv(vr[0])}, {L.lst(vr[1], vc)})"
+        tfile = lambda samples, recs: f"(mktf {L.lst(samples, L.chars)} {L.lst(recs, rec)})"
+        f = tfile(inp["samples"], list(zip(inp["variants"], inp["calls"])))
+        target = {"pgen": 0, "vcf": 1, "vcf.gz": 1, "bcf": 2}[inp["target"]]
+        none = "(Err 0)"
+        if not isinstance(obs, dict) or "held" not in obs:
+            k = oerr(obs)
+            return f"(mktc {target} false {f} (Err {k}) (Err {k}) (Err {k}) (Err {k}))"
+        if obs["held"] != inp["variants"]:
+            # the generator must only produce what the record type holds unchanged
+            return f"(mktc {target} false {f} (Err 97) (Err 97) (Err 97) (Err 97))"
+        if "write_err" in obs:
+            k = obs["write_err"]["err"]
+            return f"(mktc {target} false {f} (Err {k}) (Err {k}) (Err {k}) (Err {k}))"
+        t1 = f"(Ok {L.chars(obs['text1'])})" if "text1" in obs else none
+        t2 = f"(Ok {L.chars(obs['text2'])})" if "text2" in obs else none
+        view = none
+        if "view" in obs:
+            view = L.res(obs["view"], lambda v: tfile(v["samples"], v["recs"]))
+        if "err" in obs["back"]:
+            back = f"(Err {L.z(obs['back']['err'])})"
+        else:
+            b = obs["back"]["ok"]
+            call = lambda c: f"({L.z(c[0])}, {L.z(c[1])}, {L.z(c[2])})"
+            back = (f"(Ok (mktb {L.lst(b['samples'], L.chars)} {L.lst(b['variants'], self.tv)} "
+                    f"{L.lst(b['rows'], lambda r: L.lst(r, call))}))")
+        return f"(mktc {target} false {f} {t1} {t2} {view} {back})"
+
+    def nontrivial(self, inp, obs):
+        names = list(inp["samples"]) + [v[0] for v in inp["variants"]] + [v[1] for v in inp["variants"]]
+        return any(not nm.isalnum() or not nm.isascii() for nm in names)
+
+    def classes(self, inp, obs):
+        out = [f"target={inp['target']}", shape_class(inp)]
+        names = list(inp["samples"]) + [v[0] for v in inp["variants"]]
+        if any(nm.isdigit() for nm in names):
+            out.append("name:digits-only")
+        if any("_" in nm for nm in names):
+            out.append("name:underscore")
+        if any("." in nm for nm in names):
+            out.append("name:dot")
+        if any("#" in nm for nm in names):
+            out.append("name:hash")
+        if any(nm.startswith('"') for nm in names):
+            out.append("name:leading-quote")
+        if any(nm in NAME_RESERVED for nm in names):
+            out.append("name:reserved-word")
+        if any(len(nm) >= 60 for nm in inp["samples"]):
+            out.append("name:very-long-sample")
+        if any(len(v[0]) == 50 for v in inp["variants"]):
+            out.append("name:id-50-chars")
+        if any(len(v[1]) == 10 for v in inp["variants"]):
+            out.append("name:contig-10-chars")
+        if any(not nm.isascii() for nm in names):
+            out.append("name:non-ascii")
+        if any(a.startswith("<") or a == "*" for v in inp["variants"] for a in v[3]):
+            out.append("allele:symbolic")
+        if any(len(a) >= 100 for v in inp["variants"] for a in v[3]):
+            out.append("allele:very-long")
+        if any(v[2] > 10 ** 8 for v in inp["variants"]):
+            out.append("pos:large")
+        return out
+
+    def shrink(self, inp):
+        n, p = len(inp["samples"]), len(inp["variants"])
+        for j in range(p):
+            yield dict(inp, variants=inp["variants"][:j] + inp["variants"][j + 1:], calls=inp["calls"][:j] + inp["calls"][j + 1:])
+        for s in range(n):
+            if not (inp["target"] == "pgen" and n == 1 and p):
+                yield dict(inp, samples=inp["samples"][:s] + inp["samples"][s + 1:],
+                           calls=[r[:s] + r[s + 1:] for r in inp["calls"]])
+        for s in range(n):
+            nm = inp["samples"][s]
+            for new in (f"s{s}", nm[:len(nm) // 2], nm[1:]):
+                if new and new != nm and new not in inp["samples"]:
+                    yield dict(inp, samples=inp["samples"][:s] + [new] + inp["samples"][s + 1:])
+        for j in range(p):
+            v = inp["variants"][j]
+            for new in ([f"v{j}", v[1], v[2], v[3]], [v[0], "1", v[2], v[3]], [v[0], v[1], 10 + j, v[3]],
+                        [v[0], v[1], v[2], ["A", "C"][:max(2, 0)] + ["G", "T", "N", "AA", "CC", "GG"][:len(v[3]) - 2]],
+                        [v[0][:len(v[0]) // 2], v[1], v[2], v[3]]):
+                if new != v and new[0]:
+                    yield dict(inp, variants=inp["variants"][:j] + [new] + inp["variants"][j + 1:])
+        if inp["target"] in ("vcf.gz", "bcf"):
+            yield dict(inp, target="vcf")
+
+    def mutate(self, inp, rng):
+        for target in ("pgen", "vcf", "vcf.gz", "bcf"):
+            if target != inp["target"]:
+                c = dict(inp, target=target)
+                if target == "pgen":
+                    if not c["samples"] and c["variants"]:
+                        continue
+                    c["calls"] = [[[None, None, x[2]] if (x[0] is None) != (x[1] is None) else x for x in r] for r in c["calls"]]
+                yield c
+
+    def signature(self, inp, obs):
+        t = "PGEN (.psam/.pvar)" if inp["target"] == "pgen" else inp["target"]
+        names = list(inp["samples"]) + [v[0] for v in inp["variants"]]
+        q = any(nm.startswith('"') for nm in names)
+        if not isinstance(obs, dict) or "held" not in obs:
+            return f"text: interpreter crash/timeout writing or reading {t}"
+        if "write_err" in obs:
+            return f"text: writing {t} raised {obs['write_err'].get('cls')}; leading-quote={q}"
+        sym = any(a.startswith("<") for v in inp["variants"] for a in v[3])
+        if "err" in obs.get("back", {}):
+            return (f"text: reading {t} raised {obs['back'].get('cls')}; leading-quote={q} symbolic-allele={sym} "
+                    f"{shape_class(inp)}")
+        b = obs["back"]["ok"]
+        what = []
+        if b["samples"] != inp["samples"]:
+            what.append("samples")
+        if b["variants"] != inp["variants"]:
+            what.append("variants")
+        return f"text: {'/'.join(what) or 'calls'} read back from {t} differ; leading-quote={q}"
+
+
+RELATIONS = [Pgen(), Vcf(), Text()]
 
 LEVEL_TEXT = (
-    "Coq theorems, for every matrix size, every allele/missing/phase pattern in the property's domain and every write and "
-    "read chunk size >= 1, about a Gallina model of GenotypesPLINK.write/read and GenotypesVCF.write/Genotypes.read at the "
-    "library boundary (chunking irrelevance, the writer's allele-count precondition, PGEN and VCF round trips under stated "
-    "contracts of pgenlib and pysam/cyvcf2). The model is tied to /repo on every run: the calls haptools makes to "
-    "pgenlib.PgenWriter are recorded and compared, the written files are inspected with pysam, and the object haptools "
-    "reads back is compared with the model and checked against the property inside Coq."
+    "Coq theorems, for every matrix size (0 samples or 0 variants included), every allele/missing/phase pattern in the "
+    "property's domain and every write and read chunk size >= 1, about a Gallina model of GenotypesPLINK.write/read and "
+    "GenotypesVCF.write/Genotypes.read at the library boundary (chunking irrelevance, the writer's allele-count "
+    "precondition, PGEN and VCF round trips, independence of the VCF read from format and index, the shapes without "
+    "entries, the refusal of half-missing calls by PGEN) under stated contracts of pgenlib, pysam/cyvcf2 and htslib, "
+    "and about a character-level model of the .psam/.pvar/.vcf text (every list of sample names, every variant's ID, "
+    "contig, position and alleles, every GT token is read back as written). The models are tied to /repo on every "
+    "run: the calls haptools makes to pgenlib.PgenWriter are recorded and compared, the written files are read "
+    "independently with pgenlib and pysam and as text, and the object haptools reads back is compared with the model "
+    "and checked against the property inside Coq."
 )
 LEVEL_NOTE = (
-    "Partial: byte-level behaviour of htslib (pysam, cyvcf2) and pgenlib is a contract (Section hypotheses exercised against "
-    "the real libraries on every run), not a theorem; compression/index independence is established by the correspondence "
-    "run over .vcf/.vcf.gz/.bcf with and without index, the model being format-agnostic. A call missing in one allele only "
-    "cannot be stored in PGEN (pgenlib raises RuntimeError); it is outside the checked domain for PGEN."
+    "Partial: the binary encodings of htslib (bgzip, BCF) and pgenlib are contracts (Section hypotheses, each "
+    "validated against the real library on every run), not theorems; the text of .psam/.pvar/.vcf is modelled down to "
+    "characters. A call missing in one allele only cannot be stored in PGEN and variants without samples neither: both "
+    "are refusals in the model and outside the round-trip demand for PGEN (see assumptions)."
 )
-TECHNIQUE = "Coq proof by induction on chunked lists + vm_compute-evaluated correspondence against haptools, pgenlib, pysam and cyvcf2"
+TECHNIQUE = ("Coq proof by induction on chunked lists, token lists and decimal numerals + vm_compute-evaluated "
+             "correspondence against haptools, pgenlib, pysam, cyvcf2 and the written text")
